@@ -19,7 +19,7 @@ PROPERTY = 'C02'
 LEVEL = 'exploration'
 RULE = ("doctests of 1..8 statements from {emit (prints), an expression printing two lines, val (returns an object with repr R<id>, str S<id>), pv (prints and "
         "returns), assignment of a value, printing for loop, multi-line call, multi-line value expression, ';' line, "
-        "';' line ending in a value, silent call, top-level await expressions and an asynchronous comprehension with a value, expressions whose output is only an empty / blank line (want <BLANKLINE>), "
+        "';' line ending in a value, silent call, top-level await expressions and an asynchronous comprehension with a value, output left without a trailing newline, expressions whose output is only an empty / blank line (want <BLANKLINE>), "
         "alone, after other output, or together with a returned value}; after a statement a want is placed with p=0.55 in one of the forms "
         "A/B/C that applies; statements without wants are split into several parts by prose/blank lines so the "
         "accumulation buffer holds 1..4 entries; in half of the cases exactly one want is corrupted (replace, append, "
@@ -55,7 +55,7 @@ def required_cells(tier):
 
 
 KINDS = ['emit', 'emit', 'twice', 'twice', 'val', 'pv', 'pv', 'assign', 'for', 'multi', 'valml', 'semi', 'semival', 'quiet',
-         'blankout', 'wsout', 'emitblank', 'pvblank', 'aval', 'apv', 'acomp', 'coro_obj']
+         'blankout', 'wsout', 'emitblank', 'pvblank', 'aval', 'apv', 'acomp', 'coro_obj', 'noeol', 'noeol']
 
 
 def out_to_want(text):
@@ -101,6 +101,9 @@ def gen_program(rng):
             S.append(St(['await apv(%d)' % k], kind, k, is_expr=True))
         elif kind == 'acomp':
             S.append(St(['[x async for x in agen(%d)]' % k], kind, k, is_expr=True))
+        elif kind == 'noeol':
+            # output without a trailing newline: what the next statement prints continues the same line
+            S.append(St(['print("n%d", end=quiet(%d) or "")' % (k, k)], kind, k, is_expr=True))
         elif kind == 'coro_obj':
             # the value is a coroutine object that nobody awaits: its body must not run
             S.append(St(['quiet(%d) or acoro(%d)' % (k, k)], kind, k, is_expr=True))
